@@ -83,6 +83,24 @@ impl RecAccess {
     }
 }
 
+/// reads a streaming body to its end: {"ok": hex, "frames": n} or {"err": msg, "delivered": hex}
+pub async fn drain(body: Option<s3s::dto::StreamingBlob>) -> Value {
+    use futures::StreamExt;
+    let Some(mut b) = body else { return json!({"none": true}) };
+    let mut all = vec![];
+    let mut n = 0;
+    while let Some(x) = b.next().await {
+        match x {
+            Ok(d) => {
+                n += 1;
+                all.extend_from_slice(&d);
+            }
+            Err(e) => return json!({"err": format!("{e:?}"), "delivered": hex(&all), "frames": n}),
+        }
+    }
+    json!({"ok": hex(&all), "frames": n})
+}
+
 include!(concat!(env!("OUT_DIR"), "/generated.rs"));
 
 struct RecAuth {
